@@ -654,6 +654,168 @@ def check_c09(tier, seed, replay):
     return check_translated('C09', tier, seed, replay)
 
 
+F12_PROGRAM = r'''// known finding F12 (C20): coroutine mock WITH a parameter; a CO_ clause evaluated after the call returned
+// reads the parameter tuple that lived in mock_func's frame.
+#include <trompeloeil.hpp>
+#include <coroutine>
+#include <cstdio>
+#include <optional>
+using trompeloeil::_;
+struct Pull {
+  struct promise_type {
+    std::optional<int> cur; int ret = 0;
+    Pull get_return_object() { return Pull{std::coroutine_handle<promise_type>::from_promise(*this)}; }
+    std::suspend_always initial_suspend() noexcept { return {}; }
+    std::suspend_always final_suspend() noexcept { return {}; }
+    std::suspend_always yield_value(int v) { cur = v; return {}; }
+    void return_value(int v) { ret = v; }
+    void unhandled_exception() {}
+  };
+  std::coroutine_handle<promise_type> h;
+  explicit Pull(std::coroutine_handle<promise_type> h_) : h(h_) {}
+  Pull(Pull&& o) noexcept : h(o.h) { o.h = {}; }
+  ~Pull() { if (h) h.destroy(); }
+  bool await_ready() const { return true; }
+  void await_suspend(std::coroutine_handle<>) const {}
+  int await_resume() const { return 0; }
+};
+struct CM { MAKE_MOCK1(f, Pull(int)); };
+int main()
+{
+  CM m;
+  REQUIRE_CALL(m, f(_)).CO_YIELD(_1 + 10).CO_RETURN(_1 + 1);
+  Pull p = m.f(5);
+  p.h.resume();                       // evaluates `_1 + 10` after mock_func has returned
+  std::printf("%d\\n", *p.h.promise().cur);
+  p.h.resume();
+  std::printf("%d\\n", p.h.promise().ret);
+  return 0;
+}
+'''
+
+
+def known_finding_f12():
+    """-> True while the recorded known finding still reproduces on the current tree."""
+    import tempfile
+    import shutil
+    import subprocess
+    wd = tempfile.mkdtemp(prefix='f12_')
+    try:
+        src = os.path.join(wd, 'f12.cpp')
+        with open(src, 'w') as f:
+            f.write(F12_PROGRAM)
+        r = subprocess.run(['g++', '-std=c++20', '-O0', '-g', '-fsanitize=address', '-I' + os.path.join(vlib.REPO, 'include'), src, '-o',
+                            os.path.join(wd, 'f12')], stdout=subprocess.PIPE, stderr=subprocess.PIPE, universal_newlines=True)
+        if r.returncode != 0:
+            return None, 'does not compile: ' + r.stderr[:400]
+        env = dict(os.environ)
+        env['ASAN_OPTIONS'] = 'detect_stack_use_after_return=1:exitcode=97'
+        r = subprocess.run([os.path.join(wd, 'f12')], stdout=subprocess.PIPE, stderr=subprocess.PIPE, universal_newlines=True, env=env)
+        return ('stack-use-after-return' in r.stderr or 'stack-use-after-scope' in r.stderr or r.returncode == 97), vlib.crash_summary(r.stderr)
+    finally:
+        shutil.rmtree(wd, ignore_errors=True)
+
+
+@pure('C20')
+def check_c20(tier, seed, replay):
+    import corogen
+    prop = 'C20'
+    t0 = time.time()
+    violations = []
+    notes = []
+    try:
+        tmodel = vlib.build_lean(prop)
+    except vlib.BuildError as e:
+        path = vlib.write_replay(prop, tier, seed, 'lean-build', ['verdict tie-broken', 'broken lake build'], str(e).split('\n'))
+        print('VIOLATION property=%s replay=%s no-failing-input-found' % (prop, path))
+        return 1
+    audit = vlib.lean_audit(prop)
+    if audit['problems'] or audit['discharged'] != audit['obligations']:
+        path = vlib.write_replay(prop, tier, seed, 'lean-audit', ['verdict tie-broken', 'broken proof audit'], audit['problems'])
+        violations.append((path, True))
+    if tier == 'thorough' and audit['obligations']:
+        ok, out = vlib.leanchecker(prop)
+        notes.append('leanchecker TrompModel.Props.%s: %s' % (prop, 'ok' if ok else 'FAILED'))
+    try:
+        hx = vlib.build_simple_harness('coro', std='c++20')
+    except vlib.BuildError as e:
+        path = vlib.write_replay(prop, tier, seed, 'harness-build',
+                                 ['verdict tie-broken', 'broken correspondence h_coro (does not compile against /repo)'], str(e).split('\n'))
+        print('VIOLATION property=%s replay=%s no-failing-input-found' % (prop, path))
+        return 1
+    # known findings first
+    for k in [k for k in vlib.load_known() if k.get('property') == prop and k.get('status') == 'known']:
+        rep, detail = known_finding_f12()
+        if rep:
+            print('KNOWN-FINDING: property=%s %s' % (prop, k['what']))
+            notes.append('known finding %s reproduces: %s' % (k['id'], detail))
+        else:
+            notes.append('known finding %s no longer reproduces (%s)' % (k['id'], detail))
+    rng = random.Random('%s-%s' % (seed, prop))
+    if replay:
+        scripts = [[l.rstrip('\n') for l in open(replay) if l.strip() and not l.startswith('#')]]
+    else:
+        scripts = [ls for _, ls in load_corpus(prop)] + corogen.gen(tier, rng)
+    mo = vlib.run_scripts(tmodel, scripts, mode='coro')
+    io = vlib.run_scripts_robust(hx, scripts)
+    failing = []
+    hist = collections.Counter()
+    nops = 0
+    for idx, (ls, (m, mc), (i, ic)) in enumerate(zip(scripts, mo, io)):
+        nops += len(ls)
+        if m is None:
+            failing.append((idx, 0, 'model failed'))
+            continue
+        for l in m:
+            for e in l.split(' ; '):
+                hist[e.split(':')[0].split(' ')[0]] += 1
+        if ic:
+            failing.append((idx, len(i or []), 'implementation crashed: ' + ic))
+            continue
+        d = next((k for k in range(len(ls)) if k >= len(i) or k >= len(m) or i[k] != m[k]), None)
+        if d is not None:
+            failing.append((idx, d, None))
+    if replay:
+        ls = scripts[0]
+        for k, l in enumerate(ls):
+            print('%-36s impl: %-40s model: %s' % (l, io[0][0][k] if io[0][0] and k < len(io[0][0]) else '<none>', mo[0][0][k] if mo[0][0] and k < len(mo[0][0]) else '<none>'))
+        if failing:
+            print('VIOLATION property=%s replay=%s' % (prop, replay))
+            return 1
+        print('no disagreement')
+        return 0
+    for (idx, d, crash) in failing[:3]:
+        ls = scripts[idx]
+        hdr = ['verdict violation', 'protocol coro-1', 'oracle: the model output is the only conforming output (theorems in Props/C20.lean)']
+        if crash:
+            hdr.append(crash)
+        else:
+            hdr += ['first differing operation #%d: %s' % (d, ls[d]), 'impl : ' + (io[idx][0][d] if d < len(io[idx][0]) else '<none>'),
+                    'model: ' + (mo[idx][0][d] if d < len(mo[idx][0]) else '<none>')]
+        violations.append((vlib.write_replay(prop, tier, seed, 'c%d' % idx, hdr, ls), False))
+    wall = time.time() - t0
+    cov = dict(
+        obligations=audit['obligations'], discharged=audit['discharged'],
+        checker_cmd='cd lean && lake build tmodel TrompModel.Props.C20 && lake env lean .lake/audit_C20.lean',
+        trusted_base=TRUSTED_BASE + ['the promise types of the coroutine harness (lazy/eager pullers) and g++ 12.2 coroutines'],
+        theorems=[dict(name=n, axioms=a) for n, a in audit['theorems']],
+        programs=len(scripts), traces_validated_against_impl=len(scripts) - len(failing), disagreements_checked=len(failing),
+        evaluations=nops, distinct_nontrivial=len(set(tuple(s) for s in scripts)),
+        rule='exhaustive: lazy/eager x value/void completion x every CO_YIELD list of length <= 3 (quick) / 4 over {value, value, throwing} '
+             'with at most one throwing clause x {CO_RETURN value, throwing CO_RETURN, CO_THROW} x pulls past the end; two coroutines of '
+             'one expectation under sampled and fixed interleavings; coroutines of two expectations; mock functions WITHOUT parameters (F12)',
+        samples=['\n'.join(scripts[k]) for k in (0, len(scripts) // 2)], exhaustive=False, outcome_histogram=dict(hist), notes=notes,
+        harness_tree=vlib.repo_hash())
+    vlib.write_evidence(prop, tier, seed, 'proof', cov,
+                        ['the expectation outlives the evaluation of its clauses (the property\'s proviso)',
+                         'clauses evaluated after the call returned do not refer to parameters of the call (known finding F12)'],
+                        wall, len(violations))
+    for path, nf in violations:
+        print('VIOLATION property=%s replay=%s%s' % (prop, path, ' no-failing-input-found' if nf else ''))
+    log('[%s] %s: %d scripts, %d ops, %d failing, %.0fs' % (prop, tier, len(scripts), nops, len(failing), wall))
+    return 1 if violations else 0
+
+
 def main():
     ap = argparse.ArgumentParser()
     ap.add_argument('prop')
